@@ -11,6 +11,16 @@ _ODE_NOTE = ("the strict C reader is trusted for the statement shapes it accepts
 _ODE_TECH = ("TLA+ spec OdeGen.tla model-checked with TLC over all small networks; TLC-chosen and random networks rendered by the real "
              "generator for dense/sparse/cusparse/odeint, read back with a strict C reader and validated event by event by Trace_OdeGen.tla")
 CHECKS = {
+    "C16": dict(level="model_checking", design_ref="DESIGN.md §4 C16, §11",
+        technique="TLA+ spec Renorm.tla (coefficient tables, Coupling/Additive, integer lemma by Cramer's rule, SetReference/Renorm/perturb "
+                  "state machine) model-checked with TLC; emitted tables of both back-ends parsed and compared by TLC; the generated "
+                  "Renorm compiled against the SUNDIALS stand-in and driven through call sequences, judged by Trace_Renorm.tla",
+        text="TLC proves on exact integers (2 elements, 4 species, all abundance/reference choices of the bound) that with Coupling and "
+             "Additive the renormalised element totals are Hn*ref and the map is the identity when the ratios match, and that the stored "
+             "reference survives any call sequence; the emitted coefficient tables must equal the specification's tables for networks "
+             "with intended compositions, and the compiled Renorm must restore the ratios, leave electrons alone, stay finite and be the "
+             "identity on an already normalised vector across sequences with repeated calls.",
+        note="intended compositions / mass numbers of the species pool; stand-in dense LU; ratios compared to 1e-9"),
     "C05": dict(level="model_checking", design_ref="DESIGN.md §4 C05, §11",
         technique="TLA+ spec RateLaws.tla (law of every (format, code) as an expression tree over symbolic parameters) checked with TLC "
                   "for totality and cross-format agreement; every (format, code) x coefficient sign/magnitude class encoded, parsed and "
